@@ -252,5 +252,48 @@ def rule_s4(repo):
     return res
 
 
+def rule_s5(repo):
+    """A method whose application asserts how many facts it takes (`assert len(prevs) == N`) must not
+    suggest itself for another number of selected facts: every non-empty list of suggestions its search
+    returns is behind the same test on the number of facts."""
+    res = RuleResult('C14.S5', 'a method that asserts the number of facts on application suggests itself only for that number of facts', floor=5)
+    for mi in method_index(repo):
+        if not mi.apply or not mi.search:
+            continue
+        wants = None
+        prm_a = mi.apply.params()
+        for n in ast.walk(mi.apply.node):
+            if isinstance(n, ast.Assert):
+                cp = compare_parts(n.test)
+                if cp and cp[0] is ast.Eq and isinstance(cp[1], ast.Call) and call_name(cp[1]) == 'len' and cp[1].args and \
+                        isinstance(cp[1].args[0], ast.Name) and cp[1].args[0].id in prm_a and 'prev' in cp[1].args[0].id and \
+                        isinstance(cp[2], ast.Constant):
+                    wants = cp[2].value
+        if wants is None:
+            continue
+        cfg = cfg_of(mi.search.node)
+        prm_s = [p for p in mi.search.params() if 'prev' in p]
+        need(prm_s, '%s.search has no parameter for the selected facts' % mi.key)
+        pv = prm_s[0]
+
+        def right_number(e, pol):
+            cp = compare_parts(e)
+            if not (cp and isinstance(cp[1], ast.Call) and call_name(cp[1]) == 'len' and cp[1].args and is_name(cp[1].args[0], pv) and
+                    isinstance(cp[2], ast.Constant) and cp[2].value == wants):
+                return False
+            return (cp[0] is ast.Eq and pol) or (cp[0] is ast.NotEq and not pol)
+        edges = cfg.establishing_edges(right_number)
+        # a re-application with recorded data (`if data: return [data]`) is not a suggestion
+        rets = [r for r in cfg.return_nodes() if r.ast.value is not None and not (isinstance(r.ast.value, ast.List) and not r.ast.value.elts) and
+                not (isinstance(r.ast.value, ast.List) and len(r.ast.value.elts) == 1 and is_name(r.ast.value.elts[0], 'data'))]
+        bad = [r for r in rets if cfg.path_avoiding(r, skip_edges=edges) is not None]
+        ok = not bad
+        res.add('%s :: search :: number-of-facts(%d)' % (mi.key, wants), ok,
+                'suggestions only when len(%s) == %d' % (pv, wants) if ok else
+                '`%s` (line %d) can be returned for any number of selected facts, but apply asserts len(prevs) == %d: with a fact selected the '
+                'suggestion is shown and applying it fails' % (src(bad[0].ast, 40), bad[0].lineno, wants), mi.search.loc)
+    return res
+
+
 def rules(repo):
-    return [rule_s1(repo), rule_s2(repo), rule_s3(repo), rule_s4(repo)]
+    return [rule_s1(repo), rule_s2(repo), rule_s3(repo), rule_s4(repo), rule_s5(repo)]
